@@ -14,6 +14,14 @@ BASELINE_OFF = ('cd /repo && env -u ELECTRUMX_VERIF /venv/bin/python -m pytest -
 _IDX_NOTE = ('Trusted: the fake plyvel stand-in (bound to real LevelDB by the conformance run), '
              'the reference indexer; only the default schedule is used here (schedules: C06/C07).')
 CHECKS = {
+    'C19': ('exploration',
+            'exhaustive enumeration of peer populations x shuffle outcomes and of feature dictionaries',
+            'Product of per-slot peer states (shared /16 and /56 buckets, private addresses, resolved '
+            'and unresolved host names, up to 60 onion peers, own identities) x requester kind, each '
+            'under every shuffle outcome of small buckets, through the real on_peers_subscribe; '
+            'every host x port-pair of a JSON alphabet through Peer.peers_from_features.',
+            'aiorpcx hostname validation trusted; independent hostname check deliberately lenient; '
+            'fixed clock.', '3/C19'),
     'C18': ('exploration',
             'exhaustive enumeration of fault sequences on the real Daemon with a scripted HTTP session, virtual clock',
             'Every fault sequence over a 7-letter alphabet (plus faults after k streamed chunks) up '
